@@ -9,7 +9,6 @@ from fractions import Fraction as Fr
 from core import *
 
 NEEDS = ["Heap", "Values", "ValuesProofs", "Corr"]
-GUARD = "no_shared_subcircuit_on_path"
 
 # operator library: ONE OperatorTemplate object per name in a circuit (D26); every operator has exactly one state variable
 # and at most one input variable, and is affine in the input so that edge sums can be read off dy exactly
@@ -33,6 +32,8 @@ def build(case):
                 variables[var] = f"{lib['kind']}({f!r})"
             elif var == lib["inp"]:
                 variables[var] = f"input({f!r})"
+            elif var in o.get("dictform", []):   # explicit declaration {'vtype','dtype','shape','value'}
+                variables[var] = {"vtype": "constant", "dtype": "float", "shape": (1,), "value": f}
             else:
                 variables[var] = f
         ops.append(OperatorTemplate(o["name"], equations=[lib["eq"]], variables=variables))
@@ -210,7 +211,7 @@ def gen_case(rng, maxlen):
     for n in opnames:
         lib = OPLIB[n]
         defs = [[lib["state"], dy8(rng)]] + [[k, dy8(rng)] for k in lib["consts"]] + ([[lib["inp"], "0"]] if lib["inp"] else [])
-        ops.append(dict(name=n, defs=defs))
+        ops.append(dict(name=n, defs=defs, dictform=[k for k in lib["consts"] if rng.random() < 0.25]))
     nodes = []
     for _ in range(rng.randint(1, 3)):
         chosen = [0] + [i for i in range(1, len(ops)) if rng.random() < 0.6]
@@ -338,6 +339,11 @@ def shared_objects(case):
     return len(set(used_nodes)) < len(used_nodes) or len(set(used_circs)) < len(used_circs) or len(set(used_ops)) < len(used_ops)
 
 
+def shared_subcircuit(case):
+    used = [j for c in case["circs"] if not c["leaf"] for _, j in c["children"]]
+    return len(set(used)) < len(used)
+
+
 def nontrivial(case):
     return len(case["hist"]) >= 2 and shared_objects(case)
 
@@ -349,8 +355,7 @@ Definition ccase := (nat * id * heap * list string * list hop * list pyout)%type
 Definition okI (c : ccase) := let '(d, r, h, inputs, ops, pys) := c in outs_ok inputs (snd (runI d r h ops)) pys.
 Definition okS (c : ccase) := let '(d, r, h, inputs, ops, pys) := c in
   match abs d h r with Some t => outs_ok inputs (snd (runS d t ops)) pys | None => false end.
-Definition guard (c : ccase) := let '(d, r, h, inputs, ops, pys) := c in
-  match abs d h r with Some t => no_shared_subcircuit t | None => false end.
+Definition guard (c : ccase) := true.
 Definition wf (c : ccase) := let '(d, r, h, inputs, ops, pys) := c in
   match abs d h r with Some t => true | None => false end.
 """
@@ -490,15 +495,11 @@ def check(ctx):
     badI = [good[i] for i in badI]; badS = [good[i] for i in badS]; gfalse = [good[i] for i in gfalse]
     assert not ill, f"generator produced an ill-formed store: {ill[:5]}"
     ctx.note(f"E1: {len(cases)} histories, {sum(len(c['hist']) + 1 for c in cases)} operations; impl-vs-Impl mismatches {len(badI)}, "
-             f"impl-vs-Spec mismatches {len(badS)} (of which with a shared sub-circuit object: {len([i for i in badS if i in gfalse])}), "
-             f"harness/worker errors {len(crashed)}; histories with a shared sub-circuit object: {len(gfalse)}")
-    def witness_check(f):
-        w = json.load(open(os.path.join(VERIF, f["witness"])))
-        return fails(ctx, w, "wit")[0]
+             f"impl-vs-Spec mismatches {len(badS)}, harness/worker errors {len(crashed)}; "
+             f"histories with a sub-circuit object registered under two names: {sum(1 for c in cases if shared_subcircuit(c))}")
     conclude(ctx, cases=cases, impl_out=outs, bad_spec=badS, bad_impl=badI, crashed=crashed, problem=problem,
-             guard_viol={i: [GUARD] for i in gfalse},
              spec_name="Values.runS (updates on the unshared tree: exactly the addressed paths change)", impl_name="Values.runI",
-             shrink=lambda c: shrink(ctx, c), witness_check=witness_check,
+             shrink=lambda c: shrink(ctx, c),
              show=lambda c: (lambda r: dict(implementation_output=r, model_output=model_outputs(ctx, c, r, "show") if not isinstance(r, dict) else None))(fails(ctx, c, "show")[1]))
     nt = {canon(c) for c in cases if nontrivial(c)}
     kinds = dict(upd=0, edge=0, apply=0, array_values=0, wildcard=0, raising=0, initial_value=0)
@@ -513,11 +514,12 @@ def check(ctx):
         if not isinstance(o, dict):
             kinds["raising"] += sum(1 for r in o if isinstance(r, dict) and "raised" in r)
     hist = dict(depth={d: sum(1 for c in cases if c["depth"] == d) for d in (0, 1, 2)}, operations=kinds,
-                shared_template_object=sum(1 for c in cases if shared_objects(c)), shared_subcircuit_object=len(gfalse))
+                shared_template_object=sum(1 for c in cases if shared_objects(c)), shared_subcircuit_object=sum(1 for c in cases if shared_subcircuit(c)),
+                dictform_declarations=sum(1 for c in cases if any(o.get('dictform') for o in c['ops'])))
     write_evidence(ctx, evaluations=len(cases), distinct_nontrivial=len(nt),
                    rule="random histories (update_var with scalar and per-node array values, wildcard paths, constants and initial values; "
                         "apply(node_values); root edge-weight updates; raising calls) on circuits of hierarchy depth 0-2 built from ONE "
-                        "OperatorTemplate object per name, shared NodeTemplate objects and (D27 class) shared sub-circuit objects; dyadic values; "
+                        "OperatorTemplate object per name (some constants declared in explicit dict form), shared NodeTemplate objects and sub-circuit objects registered under several names (D27/D47 class); dyadic values; "
                         "a history is non-trivial when it has >= 2 operations and some template object has two owners; distinct = distinct canonical JSON",
                    samples=[dict(cases[0], hist=cases[0]["hist"][:4])] if cases else [],
                    extra=dict(input_distribution=hist, impl_vs_model_mismatches=len(badI), impl_vs_spec_mismatches=len(badS)),
